@@ -6,4 +6,5 @@ import "verif/internal/core"
 var All = map[string]func(*core.Run){
 	"C01": C01,
 	"C02": C02,
+	"C03": C03,
 }
